@@ -58,7 +58,7 @@ fn build_points(class: PointClass, raw: &[Vec<i16>], l: i32, m: usize) -> Vec<Ve
     let n = raw.len();
     let first = |j: usize| raw.get(j.min(n.saturating_sub(1))).cloned().unwrap_or_default();
     match class {
-        PointClass::Lattice | PointClass::Bytes => raw.iter().map(|r| row_lat(r, l)).collect(),
+        PointClass::Lattice | PointClass::Bytes | PointClass::AdjacentFloats => raw.iter().map(|r| row_lat(r, l)).collect(),
         PointClass::AllEqual => {
             let p = row_lat(&first(0), l);
             raw.iter().map(|_| p.clone()).collect()
@@ -394,5 +394,67 @@ pub fn dist_case_strategy() -> impl Strategy<Value = DistCase> {
             let b = if same == 2 { a.clone() } else { b };
             DistCase { single, metric, a, b, c, d }
         })
+    })
+}
+
+// ------------------------------------------------------------------------------------------------
+// adjacent floats (coordinates a few ulps apart)
+
+/// `base` moved `k` ulps away from zero in the element type, widened to f64
+fn ulps(base: f64, k: u32, single: bool) -> f64 {
+    if single {
+        f32::from_bits((base as f32).to_bits().saturating_add(k)) as f64
+    } else {
+        f64::from_bits(base.to_bits().saturating_add(k as u64))
+    }
+}
+
+const BASES: [f64; 8] = [1.0, 0.1, 3.0, -2.5, 1024.0, 0.001, 1.9999990463256836, 65537.0];
+
+pub fn adjacent_strategy() -> impl Strategy<Value = Case> {
+    let offset = || prop_oneof![4 => 0u32..=1, 2 => 0u32..=3, 1 => 0u32..=40];
+    (1usize..=3, any::<bool>()).prop_flat_map(move |(dim, single)| {
+        (
+            metric_strategy(),
+            vec(0usize..BASES.len(), dim),
+            vec(vec(offset(), dim), 0..=14),
+            vec((0u8..8, any::<u16>(), any::<u16>(), vec(offset(), dim), any::<u16>(), 0u8..10, any::<u16>()), 1..=3),
+            1usize..=4,
+        )
+            .prop_map(move |(metric, bases, offs, rqs, leaf)| {
+                let point = |o: &Vec<u32>| -> Vec<f64> {
+                    (0..dim).map(|j| ulps(BASES[bases.get(j).copied().unwrap_or(0) % BASES.len()], o.get(j).copied().unwrap_or(0), single)).collect()
+                };
+                let points: Vec<Vec<f64>> = offs.iter().map(point).collect();
+                let n = points.len();
+                let queries = rqs
+                    .iter()
+                    .map(|(kind, a, b, o, kraw, rmode, rraw)| {
+                        let stored = |i: u16| points.get(idx(i, n)).cloned();
+                        let (p, class) = match kind {
+                            0..=1 => (stored(*a).unwrap_or_else(|| point(o)), QueryClass::Stored),
+                            2..=4 => (point(o), QueryClass::Lattice),
+                            5 => match (stored(*a), stored(*b)) {
+                                (Some(x), Some(y)) => (x.iter().zip(y.iter()).map(|(u, v)| {
+                                    let m = (u + v) / 2.0;
+                                    if single { (m as f32) as f64 } else { m }
+                                }).collect(), QueryClass::Midpoint),
+                                _ => (point(o), QueryClass::Lattice),
+                            },
+                            6 => (point(o).iter().map(|x| x + 1000.0).collect(), QueryClass::Far),
+                            _ => (point(o).iter().map(|x| x * 0.5).collect(), QueryClass::Other),
+                        };
+                        let radius = match rmode {
+                            0 => Radius::Abs(0.0),
+                            1..=4 => Radius::ToPoint(*rraw),
+                            5..=7 => Radius::Between(*rraw),
+                            8 => Radius::Beyond,
+                            _ => Radius::Abs(1.0),
+                        };
+                        Query { point: p, class, k: idx(*kraw, n + 3), radius }
+                    })
+                    .collect();
+                Case { single, metric, class: PointClass::AdjacentFloats, dim, points, leaf, queries }
+            })
     })
 }
